@@ -17,3 +17,13 @@ WRAP int32_t w_fi_frequent(const FI* s, uint8_t no_false_negatives, uint64_t thr
   try { auto v = s->get_frequent_items(no_false_negatives ? NO_FALSE_NEGATIVES : NO_FALSE_POSITIVES, threshold); uint32_t n = 0;
     for (auto& r : v) { if (n < cap) { items[n] = r.get_item(); est[n] = r.get_estimate(); lb[n] = r.get_lower_bound(); ub[n] = r.get_upper_bound(); } ++n; } return (int32_t)n; } catch (...) { return -1; }
 }
+// unit level: the reverse-purge hash map itself (instantiated exactly as frequent_items_sketch<uint64_t> does)
+typedef reverse_purge_hash_map<uint64_t, uint64_t, std::hash<uint64_t>, std::equal_to<uint64_t>, std::allocator<uint64_t>> RP;
+WRAP RP* w_rp_new(uint8_t lg_cur, uint8_t lg_max) { try { return new RP(lg_cur, lg_max, std::equal_to<uint64_t>(), std::allocator<uint64_t>()); } catch (...) { return nullptr; } }
+WRAP void w_rp_delete(RP* m) { delete m; }
+WRAP uint32_t w_rp_home(const RP* m, uint64_t key) { return fmix64(std::hash<uint64_t>()(key)) & ((1u << m->lg_cur_size_) - 1); }
+WRAP int w_rp_insert(RP* m, uint64_t key, uint64_t value) { try { m->adjust_or_insert(key, value); return 0; } catch (...) { return 1; } }
+WRAP int w_rp_subtract(RP* m, uint64_t amount) { try { m->subtract_and_keep_positive_only(amount); return 0; } catch (...) { return 1; } }
+WRAP uint64_t w_rp_get(const RP* m, uint64_t key) { return m->get(key); }
+WRAP uint32_t w_rp_num_active(const RP* m) { return m->num_active_; }
+WRAP uint32_t w_rp_state(const RP* m, uint32_t i) { return m->states_[i]; }
